@@ -211,4 +211,157 @@ theorem lca_iff {n : Nat} {pre : Dendro α} {r : Row α} {rs : Dendro α}
         have := hsub x hx
         rw [e1] at this; simpa using this
 
+
+/-! ### `edge_sampling[t]` is the weight of the pairs whose first common merge is `t` -/
+
+theorem S_mul_right (l : List Nat) (f : Nat → ℚ) (c : ℚ) : S l (fun x => f x * c) = S l f * c := by
+  induction l with
+  | nil => simp [S]
+  | cons a as ih => rw [S_cons, S_cons, ih]; ring
+
+theorem edgeAt_eq {n : Nat} {P : Nat → Nat → ℚ} (hP : ∀ u v, P u v = P v u) {pre : Dendro α} {r : Row α}
+    {rs : Dendro α} (hv : ValidDendro n (pre ++ r :: rs) = true) :
+    edgeAt n P (pre ++ r :: rs) pre.length =
+      S (List.range n) (fun u => S (List.range n) (fun v =>
+        if lcaRow n (pre ++ r :: rs) u v = some pre.length then P u v else 0)) := by
+  obtain ⟨st, hc, hh, hr⟩ := hist_at hv
+  obtain ⟨hbi, hbj, hne, _, _⟩ := valid_row hv
+  have hli : leaves n (pre ++ r :: rs) r.i = leaves n pre r.i := leaves_append_lt n pre _ hbi
+  have hlj : leaves n (pre ++ r :: rs) r.j = leaves n pre r.j := leaves_append_lt n pre _ hbj
+  have hmi := Dict.get?_some_mem hr.ci
+  have hmj := Dict.get?_some_mem hr.cj
+  have hndi : (leaves n pre r.i).Nodup := cinv_nodup_val hc hmi
+  have hndj : (leaves n pre r.j).Nodup := cinv_nodup_val hc hmj
+  have hlti : ∀ x ∈ leaves n pre r.i, x < n := cinv_lt hc hmi
+  have hltj : ∀ x ∈ leaves n pre r.j, x < n := cinv_lt hc hmj
+  have hdisj : ∀ x, x ∈ leaves n pre r.i → x ∉ leaves n pre r.j := cinv_disjoint hc hmi hmj hne
+  -- rewrite the condition, then split it into its four exclusive cases
+  have hrow : (pre ++ r :: rs)[pre.length]? = some r := by
+    rw [List.getElem?_append_right (Nat.le_refl _)]; simp
+  unfold edgeAt
+  rw [hrow]
+  simp only [hli, hlj]
+  have hcond : ∀ u v, (if lcaRow n (pre ++ r :: rs) u v = some pre.length then P u v else 0) =
+      (if u ∈ leaves n pre r.i ∧ v ∈ leaves n pre r.j then P u v else 0) +
+      (if u ∈ leaves n pre r.j ∧ v ∈ leaves n pre r.i then P u v else 0) +
+      (if r.i < n then (if u ∈ leaves n pre r.i ∧ v ∈ leaves n pre r.i then P u v else 0) else 0) +
+      (if r.j < n then (if u ∈ leaves n pre r.j ∧ v ∈ leaves n pre r.j then P u v else 0) else 0) := by
+    intro u v
+    have hiff := lca_iff hv u v
+    rw [hli, hlj] at hiff
+    have du := hdisj u
+    have dv := hdisj v
+    by_cases a1 : u ∈ leaves n pre r.i <;> by_cases a2 : v ∈ leaves n pre r.i <;>
+      by_cases a3 : u ∈ leaves n pre r.j <;> by_cases a4 : v ∈ leaves n pre r.j <;>
+      by_cases a5 : r.i < n <;> by_cases a6 : r.j < n <;> simp_all
+  simp only [hcond, S_add]
+  rw [B_indicator P n _ _ hndi hndj hlti hltj, B_indicator P n _ _ hndj hndi hltj hlti,
+    B_symm P hP (leaves n pre r.j) (leaves n pre r.i)]
+  have h3 : S (List.range n) (fun u => S (List.range n) (fun v =>
+      if r.i < n then (if u ∈ leaves n pre r.i ∧ v ∈ leaves n pre r.i then P u v else 0) else 0)) =
+      (if r.i < n then B P (leaves n pre r.i) (leaves n pre r.i) else 0) := by
+    by_cases h : r.i < n
+    · simp only [h, if_true]; exact B_indicator P n _ _ hndi hndi hlti hlti
+    · simp [h, S_zero]
+  have h4 : S (List.range n) (fun u => S (List.range n) (fun v =>
+      if r.j < n then (if u ∈ leaves n pre r.j ∧ v ∈ leaves n pre r.j then P u v else 0) else 0)) =
+      (if r.j < n then B P (leaves n pre r.j) (leaves n pre r.j) else 0) := by
+    by_cases h : r.j < n
+    · simp only [h, if_true]; exact B_indicator P n _ _ hndj hndj hltj hltj
+    · simp [h, S_zero]
+  rw [h3, h4]
+  ring
+
+
+/-! ### cluster weights, the initial leaf reading, and the final exchange of sums -/
+
+theorem weightAt_eq (degree : Bool) {n : Nat} (a : Mat) {pre : Dendro α} {r : Row α} {rs : Dendro α}
+    (hv : ValidDendro n (pre ++ r :: rs) = true) :
+    weightAt n (fun x => (probsRow degree n a).getD x 0) (fun x => (probsCol degree n a).getD x 0)
+      (pre ++ r :: rs) pre.length = clusterWeight degree n a (pre ++ r :: rs) pre.length := by
+  obtain ⟨_, _, _, hsplit, _⟩ := valid_row hv
+  have hrow : (pre ++ r :: rs)[pre.length]? = some r := by
+    rw [List.getElem?_append_right (Nat.le_refl _)]; simp
+  unfold weightAt clusterWeight
+  rw [hrow, hsplit, sumR_eq_sum]
+  show _ = S (leaves n (pre ++ r :: rs) r.i ++ leaves n (pre ++ r :: rs) r.j) _
+  rw [S_append, S_div, S_div, S_add, S_add]
+  ring
+
+theorem symmetrize_symm (n : Nat) (a : Mat) (i j : Nat) : (symmetrize n a).get i j = (symmetrize n a).get j i := by
+  rw [symmetrize_get, symmetrize_get]
+  by_cases h : i < n ∧ j < n
+  · have : j < n ∧ i < n := ⟨h.2, h.1⟩
+    simp only [h, this, and_self, if_true]; ring
+  · have : ¬ (j < n ∧ i < n) := fun hh => h ⟨hh.2, hh.1⟩
+    simp [h, this]
+
+/-- the initial aggregate graph, read on the leaves -/
+theorem leafInv_init (degree : Bool) (n : Nat) (a : Mat) :
+    LeafInv (α := α) n (fun u v => (symmetrize n a).get u v / (symmetrize n a).total)
+      (fun x => (probsRow degree n a).getD x 0) (fun x => (probsCol degree n a).getD x 0) []
+      (instantiate degree n a) (initCluster n) := by
+  have hkeysO : Dict.keys (instantiate degree n a).outW = List.range n := by
+    unfold instantiate AggGraph.init; simp [Dict.keys, Function.comp_def]
+  refine ⟨cinv_init n, by rw [hkeysO, keys_initCluster], ?_, ?_, ?_, ?_⟩
+  · intro x hx y hy
+    rw [hkeysO] at hx hy
+    simp only [List.mem_range] at hx hy
+    rw [init_W, leaves_leaf n [] hx, leaves_leaf n [] hy, B_singleton]
+    simp [hx, hy]
+  · intro x v hx
+    unfold instantiate AggGraph.init at hx
+    simp only [tab_length] at hx
+    by_cases hxn : x < n
+    · rw [Hier.get?_map_range _ n x hxn] at hx
+      rw [leaves_leaf n [] hxn, S_cons, S_nil]
+      simp only [Option.some.injEq] at hx
+      rw [← hx]; ring
+    · rw [get?_map_range_none _ n x hxn] at hx; cases hx
+  · intro x v hx
+    unfold instantiate AggGraph.init at hx
+    simp only [tab_length] at hx
+    by_cases hxn : x < n
+    · rw [Hier.get?_map_range _ n x hxn] at hx
+      rw [leaves_leaf n [] hxn, S_cons, S_nil]
+      simp only [Option.some.injEq] at hx
+      rw [← hx]; ring
+    · rw [get?_map_range_none _ n x hxn] at hx; cases hx
+  · intro z hz
+    simp only [List.length_nil, Nat.add_zero] at hz
+    exact ⟨z, by rw [hkeysO]; exact List.mem_range.mpr hz, fun u hu => hu⟩
+
+theorem sum_flatMap_map (l m : List Nat) (f : Nat → Nat → ℚ) :
+    (l.flatMap fun u => m.map fun v => f u v).sum = S l (fun u => S m (fun v => f u v)) := by
+  induction l with
+  | nil => simp [S]
+  | cons a as ih => simp only [List.flatMap_cons, List.sum_append, ih, S_cons]; rfl
+
+theorem zip_map_mul (l : List Nat) (f g : Nat → ℚ) :
+    ((l.map f).zip (l.map g)).map (fun p => p.1 * p.2) = l.map (fun t => f t * g t) := by
+  induction l with
+  | nil => rfl
+  | cons a as ih => simp only [List.map_cons, List.zip_cons_cons, ih]
+
+/-- selecting the term of a sum by an optional index -/
+theorem S_select (m : Nat) (o : Option Nat) (c : Nat → ℚ) (ho : ∀ t, o = some t → t < m) :
+    S (List.range m) (fun t => if o = some t then c t else 0) =
+      (match o with | some t => c t | none => 0) := by
+  cases o with
+  | none =>
+    show S (List.range m) (fun x => if none = some x then c x else 0) = 0
+    simp [S_zero]
+  | some t =>
+    have ht := ho t rfl
+    have := S_indicator [t] (List.range m) c (by simp) List.nodup_range (by simpa using ht)
+    simp only [S_cons, S_nil, add_zero] at this
+    show S (List.range m) (fun x => if some t = some x then c x else 0) = c t
+    rw [← this]
+    apply S_congr
+    intro x _
+    by_cases e : x = t
+    · simp [e]
+    · have : ¬ (some t = some x) := fun h => e (Option.some.inj h).symm
+      simp [e, this]
+
 end SkNet.HMetrics
